@@ -493,6 +493,127 @@ def s7(prog, chk):
     chk.floor("S7", n, 3)
 
 
+LOOPS = ("For", "While", "DoWhile", "Do", "ForRange")
+
+
+def _assigned_in(L):
+    """declarations written inside the loop L (assignment, compound assignment, ++/--, declaration)"""
+    out = {}
+    for x in walk(L):
+        k = x["k"]
+        if k in ("Assign", "CompoundAssign") or (k == "OpCall" and (x.get("op") or "").endswith("=") and x.get("op") not in ("==", "!=", "<=", ">=")):
+            l = x["c"][0]
+            while l is not None and l["k"] == "Cast":
+                l = l["c"][0]
+            if l is not None and l["k"] in ("DeclRefExpr", "MemberExpr"):
+                out.setdefault(l.get("d") or l.get("n"), []).append(x)
+        elif k == "UnOp" and x.get("op") in ("++", "--"):
+            l = x["c"][0]
+            if l is not None and l["k"] in ("DeclRefExpr", "MemberExpr"):
+                out.setdefault(l.get("d") or l.get("n"), []).append(x)
+        elif k == "VarDecl":
+            out.setdefault(x.get("d"), []).append(x)
+    return out
+
+
+def _invariant(e, written):
+    """the expression has the same value at every iteration: no operand written in the loop, no generator-state read"""
+    for x in walk(e):
+        if x["k"] in ("DeclRefExpr", "MemberExpr") and (x.get("d") or x.get("n")) in written:
+            return False
+        if x["k"] in CALL_KINDS and (x.get("callee") or "") in (GET,):
+            return False
+        if x["k"] in CALL_KINDS and not (x.get("cconst") or (x.get("callee") or "").split("::")[-1].startswith(("get", "is"))):
+            return False
+    return True
+
+
+def _zero(e):
+    while e is not None and e["k"] == "Cast":
+        e = e["c"][0]
+    return e is not None and e["k"] in ("Int", "IntLit") and str(e.get("v")) == "0"
+
+
+def s8(prog, ctx, chk):
+    """S8 - no identical reseeding inside a loop.  A loop whose iterations are meant to draw different realisations (successive
+    batches, successive GRFs, successive levels) must not set the generator from the same seed at each iteration: seed 0
+    ("continue the current stream") or a seed that varies with the iteration are the two accepted forms.  For every call inside
+    a loop that passes a seed (law_set_random_seed, or a seed parameter of a callee / constructor): the argument - or the
+    in-loop assignment that reaches it - must not be a non-zero value that is the same at every iteration."""
+    n = 0
+    for f in sorted(prog.funcs, key=lambda x: (x.file, x.line)):
+        if f.body is None or f.cfg is None:
+            continue
+        loops = [x for x in f.walk() if x["k"] in LOOPS]
+        if not loops:
+            continue
+        g = None
+        done = set()
+        for L in loops:
+            written = None
+            for c in walk(L):
+                if c["k"] not in CALL_KINDS:
+                    continue
+                cal = c.get("callee") or ""
+                a = call_args(c)
+                if cal == SET:
+                    idx = [0]
+                else:
+                    tg = ctx.targets(c)
+                    idx = sorted({i for t in tg for i, p in enumerate(t.params) if seedlike(p["n"]) and "int" in p["t"]})
+                for i in idx:
+                    if i >= len(a) or a[i] is None:
+                        continue
+                    e = a[i]
+                    while e["k"] == "Cast":
+                        e = e["c"][0]
+                    if written is None:
+                        written = _assigned_in(L)
+                    bad = None
+                    if _zero(e):
+                        pass
+                    elif _invariant(e, written):
+                        bad = "the seed `%s` has the same value at every iteration" % show(e)
+                    elif e["k"] in ("DeclRefExpr", "MemberExpr") and (e.get("d") or e.get("n")) in written:
+                        key = e.get("d") or e.get("n")
+                        if g is None:
+                            g = CFG(f)
+                        for asg in written[key]:
+                            if asg["k"] not in ("Assign", "VarDecl"):
+                                continue
+                            rhs = asg["c"][1] if asg["k"] == "Assign" else (asg["c"][0] if asg.get("c") else None)
+                            if rhs is None or _zero(rhs) or not _invariant(rhs, written):
+                                continue
+                            others = {o["i"] for o in written[key] if o["i"] != asg["i"]}
+                            if g.pos_of(asg) is None or g.pos_of(c) is None:
+                                continue
+                            if g.search(g.after(asg), is_target=lambda y, c=c: y["i"] == c["i"], is_barrier=lambda y, others=others: y["i"] in others) is not None:
+                                bad = "`%s` is set to `%s` (same value at every iteration) inside the loop and reaches the call unchanged" % (show(e), show(rhs))
+                                break
+                    k = (c["i"], i)
+                    if k in done and bad is None:
+                        continue
+                    if k in done and bad is not None and any(o.get("key") == "S8|%s|%s#%d" % (f.name, cal.split("::")[-1], _ord(f, c)) and o["verdict"] != "ok" for o in chk.obs):
+                        continue
+                    done.add(k)
+                    n += 1
+                    chk.analysed(f)
+                    short = cal.split("::")[-1]
+                    chk.ob("S8", "%s: `%s(.. %s ..)` inside a %s loop does not restart the same random stream at each iteration" % (f.name, short, show(e)[:30], L["k"]),
+                           f.loc(c), bad is None,
+                           detail=None if bad is None else bad + ": every iteration reseeds the generator identically and draws the same numbers again, "
+                           "the realisations produced by successive iterations are copies of each other (accepted forms: seed 0 = continue the "
+                           "stream, or a seed depending on the iteration)",
+                           key="S8|%s|%s#%d" % (f.name, short, _ord(f, c)), nontrivial=bad is not None)
+    chk.floor("S8", n, 8)
+
+
+def _ord(f, c):
+    """ordinal of the call among the calls of the same callee in f (position-independent key)"""
+    same = [x["i"] for x in f.calls() if x.get("callee") == c.get("callee")]
+    return same.index(c["i"]) if c["i"] in same else 0
+
+
 def main(tier):
     chk = Check("C13", tier,
                 "Static seeding and indexing discipline only: every function taking a seed and every class storing one sets the "
@@ -668,6 +789,7 @@ def main(tier):
     # S6: a rank of the target data base never indexes the data (conditioning reads the datum that coincides with the target)
     c05_skip.rank_owner_rule(prog, chk, "S6", ("src/Simulation/", "src/Core/simtub", "src/Gibbs/", "src/LithoRule/"), 20)
     s7(prog, chk)
+    s8(prog, ctx, chk)
     for k in sorted(an.assumed):
         chk.assumptions.append("draw %s in %s treated as seeded: %s" % (k[1], k[0], ASSUMED_SEEDED[k]))
     return chk.finish()
